@@ -784,13 +784,13 @@ class VmWorld:
             sp = self.sp(e)
             argc64 = z3.ZeroExt(56, argc)
             e.path_state['events'].append(('resolve_call', callee, argc, sp))
-            self.fresh_n = getattr(self, 'fresh_n', 0) + 1
-            ok = e.fork_bool(z3.Bool(e.fresh_name('call_returns')))
+            kcall = sum(1 for ev in e.path_state['events'] if ev[0] == 'resolve_call')
+            ok = e.fork_bool(z3.Bool(f'call_returns_{kcall}'))
             if not ok:
                 e.path_state['outcome'] = ('callee_error',)
                 raise PathEnd('vm_error', e.path_state['outcome'])
             newsp = z3.simplify(sp - argc64)
-            res = e.fresh('laythe_core::value::Value', e.fresh_name('call_result'))
+            res = e.fresh('laythe_core::value::Value', f'call_result_{kcall}')
             st.stack.store(e, z3.simplify(newsp - 1), res)
             st.fiber.f[self.fib_idx['stack_top']].set(e, SeqPtr(st.stack, newsp))
             return EnumV('vm::ExecutionSignal', sig.vindex['OkReturn'], None, None, sig)
